@@ -119,17 +119,28 @@ static void ini_run(void)
 }
 
 /* --- crypto --- */
+static char crypto_expect[16][140];
+static void crypto_setup(void)
+{
+    int t;
+    for (t = (int)P_CRYPTO_HASH_TYPE_MD5; t <= (int)P_CRYPTO_HASH_TYPE_GOST; t++) { PCryptoHash *h = p_crypto_hash_new((PCryptoHashType)t); pchar *s; p_crypto_hash_update(h, (const puchar *)"abc", 3); s = p_crypto_hash_get_string(h); snprintf(crypto_expect[t], sizeof crypto_expect[t], "%s", s); p_free(s); p_crypto_hash_free(h); }
+}
+static int crypto_bad;
 static void crypto_run(void)
 {
     int t;
     for (t = (int)P_CRYPTO_HASH_TYPE_MD5; t <= (int)P_CRYPTO_HASH_TYPE_GOST; t++) {
-        PCryptoHash *h = p_crypto_hash_new((PCryptoHashType)t); pchar *s;
+        PCryptoHash *h = p_crypto_hash_new((PCryptoHashType)t); pchar *s; int tries;
         if (!h) continue;
         p_crypto_hash_update(h, (const puchar *)"abc", 3);
-        s = p_crypto_hash_get_string(h); p_free(s);
+        for (tries = 0; tries < 3; tries++) {          /* a read that failed for lack of memory is simply repeated: the object must still give the right digest */
+            s = p_crypto_hash_get_string(h);
+            if (s) { if (strcmp(s, crypto_expect[t])) crypto_bad = t + 1; p_free(s); break; }
+        }
         p_crypto_hash_free(h);
     }
 }
+static const char *crypto_verify(void) { if (crypto_bad) { snprintf(msg, sizeof msg, "hash object (type %d) returned a wrong digest when get_string was repeated after a failed allocation", crypto_bad - 1); return msg; } return NULL; }
 
 /* --- IPC --- */
 static char ipcname[64];
@@ -209,7 +220,7 @@ static void lock_run(void)
 
 static const Scenario SC[] = {
     {"tree-bst", tree0_setup, tree_run, tree_verify, tree_teardown}, {"tree-rb", tree1_setup, tree_run, tree_verify, tree_teardown}, {"tree-avl", tree2_setup, tree_run, tree_verify, tree_teardown},
-    {"hashtable-list", ht_setup, ht_run, ht_verify, ht_teardown}, {"strings-errors", none, str_run, ok, none}, {"inifile", none, ini_run, ok, none}, {"cryptohash", none, crypto_run, ok, none},
+    {"hashtable-list", ht_setup, ht_run, ht_verify, ht_teardown}, {"strings-errors", none, str_run, ok, none}, {"inifile", none, ini_run, ok, none}, {"cryptohash", crypto_setup, crypto_run, crypto_verify, none},
     {"ipc", none, ipc_run, ipc_verify, none}, {"sockets", none, sock_run, ok, none}, {"dir", none, dir_run, ok, none}, {"libraryloader", none, lib_run, ok, none},
     {"threads-tls", none, thr_run, ok, none}, {"locks", none, lock_run, ok, none},
 };
